@@ -431,13 +431,32 @@ Definition check_main (kind : string) (input output : J) : verdict :=
         else malformed
     | _, _ => malformed
     end
+  else if String.eqb kind "jz" || String.eqb kind "cz" then
+    (* codec dimension: [n; pseed; ext; (h;) shards; via; per; t; p]. The tiling model is unchanged
+       and codec transparency (dec (enc b) = b) is C10's hypothesis, so the prediction is plainly
+       "all six read paths (sequential file and parallel file, each whole / streamed seq / streamed
+       par) return the written ids in order"; agree = prop. *)
+    match input, output with
+    | JL (JI n :: JI _ :: _ :: _), JL [tag; JL [JI ca; JI cb; JL outs; JB pay; JI leftover]] =>
+        match omap (dec_read jints) outs with
+        | Some rs =>
+            let ids := zrange n in
+            let good :=
+              jtag_is "ok" tag && (ca =? n) && (cb =? n) && pay && (leftover =? 0)
+              && (Z.of_nat (List.length rs) =? 6)
+              && forallb (fun r => outcome_eqb zlist_eqb r (Ok ids)) rs in
+            ok_verdict good good
+        | None => malformed
+        end
+    | _, _ => malformed
+    end
   else malformed.
 
 (* a panic of the code under test (or an Err where the harness unwraps) in a place where the model
    has no failure at all is a disagreement and a failed property instance, not a malformed case *)
 Definition is_panic (o : J) : bool := match o with JL [t] => jtag_is "panic" t | _ => false end.
 Definition known_kind (k : string) : bool :=
-  existsb (String.eqb k) ["jl"; "js"; "jw"; "cw"; "cs"; "ps"; "gl"; "jf"; "jb"]%string.
+  existsb (String.eqb k) ["jl"; "js"; "jw"; "cw"; "cs"; "ps"; "gl"; "jf"; "jb"; "jz"; "cz"]%string.
 Definition check_C09 (kind : string) (input output : J) : verdict :=
   let v := check_main kind input output in
   if v_malformed v && is_panic output && known_kind kind then ok_verdict false false else v.
